@@ -31,6 +31,7 @@ CHECKS['C02'] = {
     ],
     'units': [
         unit('crash', 'keepstore_c02', '^TestVerifC02Crash$', {'shards': 15, 'checks': 4}, {'shards': 16, 'checks': 45, 'timeout': 1500}),
+        unit('realkill', 'keepstore_c02', '^TestVerifC02RealKill$', None, {'shards': 8, 'checks': 4, 'timeout': 1500}),
         unit('indexfault', 'keepstore_c02', '^TestVerifC02IndexFault$', {'shards': 1, 'checks': 40}, {'shards': 4, 'checks': 500, 'timeout': 600}),
     ],
 }
